@@ -35,6 +35,8 @@ func (e *Engine) installExternals() {
 	x["(*sync.RWMutex).Unlock"] = func(fr *frame, a []Value) Value { e.rwUnlock(fr.g, a[0].(*Value)); return nil }
 	x["(*sync.RWMutex).RLock"] = func(fr *frame, a []Value) Value { e.rwRLock(fr.g, a[0].(*Value)); return nil }
 	x["(*sync.RWMutex).RUnlock"] = func(fr *frame, a []Value) Value { e.rwRUnlock(fr.g, a[0].(*Value)); return nil }
+	x["(*sync.RWMutex).TryLock"] = func(fr *frame, a []Value) Value { return e.rwTryLock(fr.g, a[0].(*Value)) }
+	x["(*sync.RWMutex).TryRLock"] = func(fr *frame, a []Value) Value { return e.rwTryRLock(fr.g, a[0].(*Value)) }
 	x["(*sync.WaitGroup).Add"] = func(fr *frame, a []Value) Value { e.wgAdd(fr.g, a[0].(*Value), a[1]); return nil }
 	x["(*sync.WaitGroup).Done"] = func(fr *frame, a []Value) Value { e.wgAdd(fr.g, a[0].(*Value), int64(-1)); return nil }
 	x["(*sync.WaitGroup).Wait"] = func(fr *frame, a []Value) Value { e.wgWait(fr.g, a[0].(*Value)); return nil }
@@ -818,11 +820,11 @@ func (e *Engine) installExternals() {
 	x["os.RemoveAll"] = func(fr *frame, a []Value) Value { return Iface{} }
 
 	// ---- runtime
-	x["runtime.Gosched"] = func(fr *frame, a []Value) Value { e.yield(fr.g, "Gosched"); return nil }
+	x["runtime.Gosched"] = func(fr *frame, a []Value) Value { e.sleepYield(fr.g, "Gosched"); return nil }
 	x["runtime.GC"] = func(fr *frame, a []Value) Value { return nil }
 	x["runtime.NumGoroutine"] = func(fr *frame, a []Value) Value { return int64(len(e.gors)) }
 	x["runtime.GOMAXPROCS"] = func(fr *frame, a []Value) Value { return int64(16) }
-	x["time.Sleep"] = func(fr *frame, a []Value) Value { e.yield(fr.g, "Sleep"); return nil }
+	x["time.Sleep"] = func(fr *frame, a []Value) Value { e.sleepYield(fr.g, "Sleep"); return nil }
 
 	e.installIntrinsics()
 }
